@@ -400,10 +400,13 @@ func (w *lfWalker) expr(fr *lfFrame, e ast.Expr) {
 		w.expr(fr, v.X)
 	case *ast.UnaryExpr:
 		if v.Op == token.AND {
-			if _, ok := w.rootField(fr, v.X); ok {
-				// address taken and returned/stored (GetCells): no access here, the users of the pointer are
-				// tracked through the alias in baseScreen
-				return
+			if _, isSel := v.X.(*ast.SelectorExpr); isSel {
+				if _, ok := w.rootField(fr, v.X); ok {
+					// address of the field itself taken and returned/stored (GetCells): no access here, the users of
+					// the pointer are tracked through the alias in baseScreen.  (&t.f[i] on the other hand reads the
+					// slice header of f and the index expression: it falls through to the ordinary walk.)
+					return
+				}
 			}
 		}
 		w.expr(fr, v.X)
